@@ -163,9 +163,9 @@ def run_property(prop, tier="quick", replay=None):
         for h in hits:
             kf = C.finding_matches(prop, h["key"])
             if kf:
-                if h["key"] not in seen:
-                    seen.add(h["key"])
-                    known.append(f"KNOWN-FINDING: property={prop} {kf.get('what', h['what'])} [key={h['key']}]")
+                if ("K", kf.get("key")) not in seen:
+                    seen.add(("K", kf.get("key")))
+                    known.append(f"KNOWN-FINDING: property={prop} {kf.get('what', h['what'])} [e.g. {h['key']}]")
                 continue
             if ("V", h["key"]) in seen:
                 continue
